@@ -32,48 +32,74 @@ def bitsOf (vals : AMap WireValue) (n : String) : Nat := match vals.get? n with
 /-- the register name: the input wire's name without its first two characters -/
 def regNameOf (inName : String) : String := String.ofList (inName.toList.drop 2)
 
+/-- what `dump_bank` prints: the opening of the group, the end of a line that is full (padded to the frame) together
+    with the start of the next, one register, the closing brace, the end of the last line -/
+inductive BTok where
+  | head (label status : String)
+  | wrap (pad : Nat)
+  | item (name : String) (hexWidth value : Nat)
+  | close
+  | fin (pad : Nat)
+  deriving Repr, DecidableEq
+
+def BTok.text : BTok → String
+  | .head label status => "| register " ++ label ++ "(" ++ status ++ ") {"
+  | .wrap pad => spaces pad ++ " |\n| "
+  | .item name w v => " " ++ name ++ "=" ++ toHexPad w v
+  | .close => " }"
+  | .fin pad => spaces pad ++ " |\n"
+
 structure BankOut where
-  text : String
+  toks : List BTok
   loc : Nat
 
-def padTo (o : BankOut) (maxLoc : Nat) : BankOut :=
-  if o.loc < maxLoc then ⟨o.text ++ spaces (maxLoc - o.loc), maxLoc⟩ else o
+/-- the column after which a line of the dump is full -/
+def maxLoc : Nat := 71
+
+/-- one register of the bank: a new line first if it does not fit -/
+def bankStep (vals : AMap WireValue) (o : BankOut) (sg : String × String × Width) : BankOut :=
+  let name := regNameOf sg.1
+  let hexWidth := (sg.2.2.bitsOr128 + 3) / 4
+  let o : BankOut := if o.loc + 2 + hexWidth + name.utf8ByteSize ≥ maxLoc then ⟨o.toks ++ [.wrap (maxLoc - o.loc)], 2⟩ else o
+  ⟨o.toks ++ [.item name hexWidth (bitsOf vals sg.2.1)], o.loc + 2 + hexWidth + name.utf8ByteSize⟩
+
+/-- the tokens of `dump_bank` -/
+def bankToks (vals : AMap WireValue) (b : RegisterBank) : List BTok :=
+  let status := if bitsOf vals b.bubble > 0 then "B" else if bitsOf vals b.stall > 0 then "S" else "N"
+  let o := b.signals.foldl (bankStep vals) ⟨[.head b.label status], 18⟩
+  let o : BankOut := if o.loc + 2 ≥ maxLoc then ⟨o.toks ++ [.wrap (maxLoc - o.loc)], 2⟩ else o
+  o.toks ++ [.close, .fin (maxLoc - (o.loc + 2))]
 
 /-- `dump_bank` -/
-def bank (vals : AMap WireValue) (b : RegisterBank) : String :=
-  let maxLoc := 71
-  let status := if bitsOf vals b.bubble > 0 then "B" else if bitsOf vals b.stall > 0 then "S" else "N"
-  let start : BankOut := ⟨"| register " ++ b.label ++ "(" ++ status ++ ") {", 18⟩
-  let o := b.signals.foldl (fun (o : BankOut) sg =>
-    let name := regNameOf sg.1
-    let hexWidth := (sg.2.2.bitsOr128 + 3) / 4
-    let o := if o.loc + 2 + hexWidth + name.utf8ByteSize ≥ maxLoc then
-        let o := padTo o maxLoc
-        ⟨o.text ++ " |\n| ", 2⟩
-      else o
-    ⟨o.text ++ " " ++ name ++ "=" ++ toHexPad hexWidth (bitsOf vals sg.2.1), o.loc + 2 + hexWidth + name.utf8ByteSize⟩) start
-  let o := if o.loc + 2 ≥ maxLoc then
-      let o := padTo o maxLoc
-      ⟨o.text ++ " |\n| ", 2⟩
-    else o
-  let o : BankOut := ⟨o.text ++ " }", o.loc + 2⟩
-  (padTo o maxLoc).text ++ " |\n"
+def bank (vals : AMap WireValue) (b : RegisterBank) : String := String.join ((bankToks vals b).map BTok.text)
 
 def lastChar (s : String) : Char := s.toList.getLast?.getD ' '
 
-def sortChars (l : List Char) : List Char := (l.toArray.qsort (fun a b => a.toNat < b.toNat)).toList
+/-- `letters.sort()` on distinct letters -/
+def sortChars (l : List Char) : List Char := l.mergeSort (fun a b => decide (a.toNat ≤ b.toNat))
 
-/-- `dump_custom_registers_y86`: one bank per output letter (a later bank with the same letter replaces an
-    earlier one), `P F D E M W` first, then the other letters in order -/
-def customRegisters (vals : AMap WireValue) (banks : List RegisterBank) : String :=
-  let byLetter : List (Char × RegisterBank) := banks.foldl (fun acc b =>
-    let c := lastChar b.stall
+/-- the letter `dump_custom_registers_y86` files a bank under: the last character of its stall signal's name -/
+def letterOf (b : RegisterBank) : Char := lastChar b.stall
+
+/-- the `HashMap<char, &RegisterBank>`: one bank per letter, a later bank with the same letter replaces an earlier one -/
+def byLetter (banks : List RegisterBank) : List (Char × RegisterBank) :=
+  banks.foldl (fun acc b =>
+    let c := letterOf b
     if acc.any (fun p => p.1 == c) then acc.map (fun p => if p.1 == c then (c, b) else p) else acc ++ [(c, b)]) []
-  let order := ['P', 'F', 'D', 'E', 'M', 'W']
-  let first := order.filterMap fun c => (byLetter.find? (fun p => p.1 == c)).map (·.2)
-  let restLetters := sortChars ((byLetter.map (·.1)).filter (fun c => !order.contains c))
-  let rest := restLetters.filterMap fun c => (byLetter.find? (fun p => p.1 == c)).map (·.2)
-  String.join ((first ++ rest).map (bank vals))
+
+def stdOrder : List Char := ['P', 'F', 'D', 'E', 'M', 'W']
+
+def bankFor (m : List (Char × RegisterBank)) (c : Char) : Option RegisterBank := (m.find? (fun p => p.1 == c)).map (·.2)
+
+/-- the banks in the order they are printed: `P F D E M W` first, then the other letters in order -/
+def printedBanks (banks : List RegisterBank) : List RegisterBank :=
+  let m := byLetter banks
+  let restLetters := sortChars ((m.map (·.1)).filter (fun c => !stdOrder.contains c))
+  (stdOrder ++ restLetters).filterMap (bankFor m)
+
+/-- `dump_custom_registers_y86` -/
+def customRegisters (vals : AMap WireValue) (banks : List RegisterBank) : String :=
+  String.join ((printedBanks banks).map (bank vals))
 
 /-- what the memory walk prints: a row label, or one of the sixteen cells of a row (with the group separators and the
     end of the row that follow it) -/
